@@ -98,11 +98,21 @@ type M struct {
 	// groups: event-based gateway group id -> member tokens
 	groups  map[int][]*Token
 	parSeen map[string]map[int]bool
+	// AsIs switches the boundary-event rules to what the engine is KNOWN to
+	// do instead of what BPMN says (known findings C10-F1/F2/F3): a boundary
+	// event's listener is a token of the instance from the first activation
+	// of its host until it fires (so an unfired listener keeps the instance
+	// from completing), it fires at most once, and an interrupting boundary
+	// event does not withdraw its host (the normal flow still continues when
+	// the host is answered). Used only to tell a known deviation from a new one.
+	AsIs          bool
+	hostActivated map[string]bool
+	boundaryFired map[string]bool
 }
 
 // New creates the model for a program with initial variables.
 func New(g *gen.Graph, vars map[string]any) *M {
-	m := &M{Vars: map[string]any{}, groups: map[int][]*Token{}}
+	m := &M{Vars: map[string]any{}, groups: map[int][]*Token{}, hostActivated: map[string]bool{}, boundaryFired: map[string]bool{}}
 	for k, v := range vars {
 		m.Vars[k] = v
 	}
@@ -302,6 +312,7 @@ func (m *M) arrive(t *Token) {
 		// incoming flow (a sibling of the fork may still be on its way to end)
 		s.incWait[n.ID] = append(s.incWait[n.ID], t)
 	case gen.KSub:
+		m.hostActivated[n.ID] = true
 		inner := m.newScope(n.Inner, s, n, t)
 		m.startScope(inner)
 		m.checkScopeDone(inner)
@@ -330,6 +341,7 @@ func (m *M) arrive(t *Token) {
 func (m *M) request(t *Token, n *gen.Node, attempts int) {
 	m.nextReq++
 	r := &Req{Seq: m.nextReq, Node: n, Tok: t, Attempts: attempts}
+	m.hostActivated[n.ID] = true
 	m.Pending = append(m.Pending, r)
 	m.obs.Requests = append(m.obs.Requests, n.ID)
 }
@@ -678,7 +690,29 @@ func (m *M) disarmBoundary(r *Req) {}
 
 // Done reports whether no token remains anywhere.
 func (m *M) Done() bool {
+	if m.AsIs && m.unfiredListeners() > 0 {
+		return false
+	}
 	return m.Root.live == 0 && m.Root.started
+}
+
+// unfiredListeners counts (as-is mode) the boundary events whose host has been
+// activated and that have not fired: each holds a token of the instance.
+func (m *M) unfiredListeners() int {
+	n := 0
+	var walk func(g *gen.Graph)
+	walk = func(g *gen.Graph) {
+		for _, b := range g.Nodes {
+			if b.Kind == gen.KBoundary && m.hostActivated[b.AttachedTo] && !m.boundaryFired[b.ID] {
+				n++
+			}
+			if b.Inner != nil {
+				walk(b.Inner)
+			}
+		}
+	}
+	walk(m.Root.G)
+	return n
 }
 
 // StuckBySpec reports whether the instance can never complete because a
